@@ -8,9 +8,9 @@ import (
 
 // Ordering sets (engine E9): which orderings of (a, b) are possible on an edge.
 const (
-	OrdLT = ordLT
-	OrdEQ = ordEQ
-	OrdGT = ordGT
+	OrdLT  = ordLT
+	OrdEQ  = ordEQ
+	OrdGT  = ordGT
 	OrdAny = ordLT | ordEQ | ordGT
 )
 
